@@ -381,7 +381,19 @@ def gen_fitted_case(r):
         extra = ["centerToReference on", "rotateToReference on", "fittingGroup {", "  atomNumbers " + " ".join(map(str, fit_ids)), "}", reftxt]
         groups = [other[:max(1, len(other) - 1)]]
     return {"comp": "cartesian", "pbc": 1, "params": {"use": [1, 1, 1]}, "groups": groups, "atoms": atoms, "cell": None,
-            "group_extra": {"atoms": extra}, "fitmode": mode, "fit_ids": fit_ids}
+            "group_extra": {"atoms": extra}, "fitmode": mode, "fit_ids": fit_ids, "fitref": ref}
+
+
+def fitted_model_line(c):
+    def grp(ids):
+        t = ["G", "%d" % len(ids)]
+        for i in ids:
+            t += ["%d" % (i - 1)] + [G.hx(x) for x in c["atoms"][i - 1]]
+        return t
+    t = ["fitcart", "1", "0", G.hx(0.0), G.hx(0.0), G.hx(0.0), "0" if c["fitmode"] == "centeronly" else "1", "%d" % len(c["fitref"])]
+    t += [G.hx(x) for v in c["fitref"] for x in v]
+    t += grp(c["fit_ids"]) + grp(c["groups"][0])
+    return " ".join(t)
 
 
 # ---------------------------------------------------------------------------------------------
@@ -542,6 +554,14 @@ def check(run):
     for cs in tie_cases:
         i = impl.add(G.impl_line(cs)); m = mod.add(G.model_line(cs))
         jobs.append(("tie", cs, i, m))
+    # groups fitted on a reference (centerToReference, rotateToReference, fittingGroup): coordinates in the fitted frame
+    for k in range(10 * scale):
+        c = gen_fitted_case(r)
+        if c is None:
+            continue
+        i = impl.add(G.impl_line([c])); m = mod.add(fitted_model_line(c))
+        c["tol"] = 1e-7
+        jobs.append(("tie", [dict(c, comp="fitted:" + c["fitmode"])], i, m))
     # coordNum with a pair list: built at the first step, used (stale) at the second step with moved atoms
     for k in range(12 * scale):
         c = gen_until(r, "coordNum", generic=(k % 2 == 1), dup=0.0)
